@@ -1004,6 +1004,22 @@ class Audit:
                 self.used_justifications.add(k2)
                 s.verdict, s.reason = "justified", "[same site as %s] %s" % (k2.rsplit(" | ", 1)[1], j2["reason"])
                 return True
+        # the site moved from a helper into the helper's only caller (`let args = self.stack[sp-n..sp].to_vec()` taken out of
+        # call_builtin and done by exec_call before the call): same operands, and the helper has no other caller, so the
+        # context the entry was reviewed in is the context of that caller
+        for c_ in sorted(self.cg.edges.get(fn, ())):
+            if c_ == fn or c_ not in self.F.fns:
+                continue
+            cl_, addr_ = self.callers_of(c_)
+            if addr_ or {q_ for q_, _ in cl_} != {fn}:
+                continue
+            for k2, j2 in self.justified.items():
+                kp = k2.split(" | ")
+                if j2.get("desc") and len(kp) == 3 and kp[0] == c_ and _norm_what(kp[1]) == wn and _norm_desc(desc) == _norm_desc(j2["desc"]) \
+                        and not j2.get("requires"):
+                    self.used_justifications.add(k2)
+                    s.verdict, s.reason = "justified", "[same site as %s %s, moved into its only caller] %s" % (M.short_callee(c_), kp[2], j2["reason"])
+                    return True
         if "::{closure" in fn:
             # the site moved into a closure of the function its entry is about (`with_one_arg(args, |arg| ..)`): the same
             # panicking callee, one such site before and one now, and the guards the entry relies on still in the function
